@@ -212,8 +212,20 @@ func c02Check(t *rapid.T, unit string, o vrOpts, npk int) {
 	}
 	snap := c.Builder.KernspaceSnapshot()
 	before := globalNextLpmIndex.Load()
-	cp := c02BuildKernspace(t, snap)
-	m, err := c.Builder.BuildUserspace()
+	var cp c02Capture
+	var m *RoutingMatcher
+	if rapid.Bool().Draw(t, "staged_reload_order") {
+		// staged reload (control_plane.go: the retained snapshot is loaded into the kernel
+		// after the userspace matcher was built)
+		if m, err = c.Builder.BuildUserspace(); err == nil {
+			cp = c02BuildKernspace(t, snap)
+		}
+		vkClass(unit, "order_userspace_then_kernspace")
+	} else {
+		cp = c02BuildKernspace(t, snap)
+		m, err = c.Builder.BuildUserspace()
+		vkClass(unit, "order_kernspace_then_userspace")
+	}
 	if err != nil {
 		t.Fatalf("BuildUserspace: %v\n%s", err, text)
 	}
